@@ -10,7 +10,9 @@ sys.path.insert(0, os.path.join(HERE, "harness"))
 os.environ.setdefault("SCODA_REPO", "/repo")
 
 TECH = {
-    "proof": "Lean 4 theorems over the generated/hand model (kernel-checked, axioms audited) + checked tie (translator and/or correspondence) + oracle search for a replay",
+    "proof": "machine-checked proof in Lean 4: theorems over the model for all inputs/histories (kernel-checked, #print axioms audited on every run) + checked tie to /repo on every run "
+             "(translators regenerate Gen/*.lean from the source and equality theorems tie them to the models; differential correspondence for the rest) + oracle search on the real "
+             "implementation for a replayable failing input",
     "translation_validation": "Lean 4 executable model tied to the code by differential correspondence; property theorems in progress (see evidence.coverage.clauses); oracle search for a replay",
 }
 
@@ -35,8 +37,9 @@ def main():
             "replay_cmd_template": f"./check {pid} --replay {{path}}",
             "engine": "lean4-model+correspondence",
             "level_claimed": {"category": level, "text": text, "design_ref": f"DESIGN.md §4 {pid}"},
-            "level_note": "Trusted: Lean 4.33 kernel; axioms ⊆ {propext, Classical.choice, Quot.sound} (audited per theorem on every run); tools/gen_lean.py; "
-                          "harness/protocol.py + lean/Driver.lean; hand-written models are tied to the code only by the correspondence check. "
+            "level_note": "Trusted: Lean 4.33 kernel; axioms ⊆ {propext, Classical.choice, Quot.sound} (audited per theorem on every run); tools/gen_lean.py and the "
+                          "translators it calls (conventions and link tables: DESIGN 9.2c); harness/protocol.py + lean/Driver.lean; hand-written models of untranslated "
+                          "functions are tied to the code only by the correspondence check, translated ones are proved equal to their models on every run. "
                           + " ".join(getattr(mod, "ASSUMPTIONS", [])),
             "technique": TECH[level],
         })
